@@ -45,7 +45,7 @@ try:
     out1 = r.stdout
     res["demo_fails_with_change"] = ("FAIL" in out1) and ("[build failed]" not in out1) and ("[setup failed]" not in out1)
     res["demo_with_change_tail"] = out1[-300:]
-    sh(f"git apply -R {d}/patch.diff || (git checkout -- . )", cwd=wt)
+    sh("git reset -q --hard HEAD", cwd=wt)
     r = sh(gotest + " 2>&1 | tail -5", cwd=wt, timeout=900)
     res["demo_passes_without"] = ("ok " in r.stdout or "ok\t" in r.stdout) and "FAIL" not in r.stdout
     res["demo_without_tail"] = r.stdout[-200:]
